@@ -29,3 +29,4 @@ for d in seeded/*/; do
   git -C /repo checkout -- .
   echo "$id ->$res"
 done
+echo finished
